@@ -1231,7 +1231,7 @@ impl Prop for C19 {
     fn fuzz(t: Tier) -> Option<FuzzSpec> {
         match t {
             Tier::Quick => None,
-            Tier::Thorough => Some(FuzzSpec { target: "c19_reflection", runs: 300000, max_len: 2048 }),
+            Tier::Thorough => Some(FuzzSpec { target: "c19_reflection", runs: 24_000, max_len: 2048 }),
         }
     }
 }
